@@ -36,7 +36,7 @@ def one(job):
     for v in job.get('redi', []):
         rec = REDItoolsParser.REDItoolsRecord(
             region=v['chrom'], position=v['position'], reference=v['reference'], strand=v['strand'], coverage_q=v['coverage'],
-            mean_quality=30.0, base_count=v['counts'], all_subs=[tuple(x) for x in v['subs']], frequency=0.5,
+            mean_quality=30.0, base_count=v['counts'], all_subs=[tuple(x) for x in v['subs']], frequency=v.get('frequency', 0.5),
             g_coverage_q=v['gcov'], transcript_id=[(t, 'transcript') for t in v['txs']])
         try:
             rs = rec.convert_to_variant_records(anno, v['min_coverage_alt'], v['min_frequency_alt'], v['min_coverage_rna'],
